@@ -68,7 +68,7 @@ CHECKS = {
     "C12": dict(
         engine="seqmc",
         technique="exhaustive enumeration of the sampler option matrix (entry point x walker type x block structure x batch count) x every virtual-RNG stream; differential oracle between entry points, public-call recomputation of the single-block estimator, bit-reproducibility in and across processes; driver.afqmc over its option matrix",
-        text="Every cell of entry point {plain, ad, ad_norot, ad_nosr, ad_nosr_norot, 2-RDM} x {restricted, unrestricted} x block structure x n_batch is called as the driver calls it for every stream (all words over 3 field letters on 4 (6) draw positions x comb-offset words); callable, equal energies for equal block structure, single-block estimator = weighted capped real local energy recomputed with public calls (capping forced by a far e_estimate letter), identical results on repetition and in another process, independent of n_batch; driver.afqmc itself over ad_mode x orbital_rotation x do_sr x walker_type under the virtual source.",
+        text="Every cell of entry point {plain, ad, ad_norot, ad_nosr, ad_nosr_norot, 2-RDM} x {restricted, unrestricted} x block structure x n_batch is called as the driver calls it for every stream (all words over 3 field letters on 4 draw positions x comb-offset words); callable, equal energies for equal block structure, single-block estimator = weighted capped real local energy recomputed with public calls (capping forced by a far e_estimate letter), identical results on repetition and in another process, independent of n_batch; driver.afqmc itself over ad_mode x orbital_rotation x do_sr x walker_type under the virtual source.",
         note="3 orbitals, 4 walkers; trial converged by an independent SCF and stable under the undamped Roothaan step. Unrestricted cells carry h1_up != h1_dn; the file route options -> _prep_afqmc -> driver.afqmc is run with the real jax.random for seeds {0,1,7} twice each.",
         design="2/C12"),
     "C14": dict(
